@@ -52,6 +52,45 @@ Theorem C31_doc_event_flag : forall td a lvl pre s s',
   s_stored s' = s_stored s ++ [a] /\ s_direct s' = s_direct s ++ [lvl =? 0].
 Proof. exact doc_event_flag. Qed.
 
+(* Actions of a class that is only ever issued inside an indirect context (in the code: everything that maintains
+   summary-table rows) are never direct -- neither the ones recorded as doc actions nor the ones flushes append,
+   also after rollback trimming.  The hypothesis is about the levels useractions.py chooses; the classifier of
+   harness/props/c31.py checks it on the implementation. *)
+Definition on_tables (is_summary : str -> bool) (a : action) : bool := is_summary (action_table a).
+
+Theorem C31_class_nondirect_partial : forall td P d es s,
+  Forall (event_ok P) es -> run td (init_st d) es = Ok s ->
+  forall a dir, In (a, dir) (combine (s_stored s) (s_direct s)) -> P a = true -> dir = false.
+Proof.
+  intros td P d es s Hok Hrun a dir Hin HP.
+  assert (H : flags_ok P (s_stored s, s_direct s)).
+  { apply (class_nondirect td P es (init_st d) s); try assumption; [reflexivity|constructor]. }
+  unfold flags_ok in H. rewrite Forall_forall in H. exact (H (a, dir) Hin HP).
+Qed.
+
+(* The full second sentence of the property for summary tables, without the hypothesis on levels, is false of the
+   code: the recorded trace of [RemoveRecord T 1] on T(A, parent: Ref:T) summarised by `parent` issues the
+   reference clean-up of the summary table's group-by column at level 0 (known finding
+   C31-summary-ref-cleanup-direct).  Fed with the engine's levels, the model marks it direct as the engine does. *)
+Definition C31_summary_actions_nondirect (is_summary : str -> bool) : Prop := forall td d es s,
+  run td (init_st d) es = Ok s ->
+  forall a dir, In (a, dir) (combine (s_stored s) (s_direct s)) -> on_tables is_summary a = true -> dir = false.
+
+Theorem C31_refuted_summary_ref_cleanup : exists is_summary, ~ C31_summary_actions_nondirect is_summary.
+Proof.
+  set (tT := [84]). set (tS := [84; 95; 115]). set (cA := [65]). set (cP := [112]). set (ty := [65; 110; 121]).
+  exists (fun t => str_eqb t tS). intro H.
+  set (d := [(tT, mkTable [1; 2; 3] [(cA, mkCol ty [(1, 1); (2, 2); (3, 3)]); (cP, mkCol ty [(1, 0); (2, 1); (3, 1)])]);
+             (tS, mkTable [1; 2] [(cP, mkCol ty [(1, 0); (2, 1)])])]).
+  set (es := [EDoc (RemoveRecord tT 1) 0 []; EDoc (BulkUpdateRecord tT [2; 3] [(cP, [0; 0])]) 0 [];
+              EDoc (UpdateRecord tS 2 [(cP, 0)]) 0 []; EDoc (RemoveRecord tS 2) 1 []]).
+  destruct (run (fun _ => 0) (init_st d) es) as [s|] eqn:E; [|vm_compute in E; discriminate].
+  specialize (H (fun _ => 0) d es s E (UpdateRecord tS 2 [(cP, 0)]) true).
+  assert (Hin : In (UpdateRecord tS 2 [(cP, 0)], true) (combine (s_stored s) (s_direct s))).
+  { vm_compute in E. inversion E; subst s. cbn. right. right. left. reflexivity. }
+  specialize (H Hin eq_refl). discriminate.
+Qed.
+
 (* Non-vacuity: a user update (direct), a summary-row addition at level 1 (non-direct), a calc flush
    (non-direct), then a rollback to length 1. *)
 Example C31_nonvacuous :
